@@ -344,13 +344,16 @@ impl<'a> Norm<'a> {
         if let Expr::MethodCall(me) = e {
             if me.method == "map_err" && me.args.len() == 1 {
                 if let Expr::Closure(cl) = &me.args[0] {
-                    if let Expr::Macro(m) = &*cl.body {
-                        if path_last(&m.mac.path) == "anyhow" {
-                            let r = &me.receiver;
-                            *e = parse_quote!(v_map_err_anyhow(#r));
-                            self.stats.bump("N9.map_err_anyhow");
-                            return;
-                        }
+                    let is_anyhow = match &*cl.body {
+                        Expr::Macro(m) => path_last(&m.mac.path) == "anyhow",
+                        // the inner `anyhow!(..)` has already been rewritten (post-order)
+                        other => other.to_token_stream().to_string().replace(' ', "").starts_with("VErr::Msg("),
+                    };
+                    if is_anyhow {
+                        let r = &me.receiver;
+                        *e = parse_quote!(v_map_err_anyhow(#r));
+                        self.stats.bump("N9.map_err_anyhow");
+                        return;
                     }
                 }
             }
